@@ -8,6 +8,7 @@ Requests (LABEL = none | utf8 | utf16le | utf16be | latin1 | sjis; SNIFF = 0|1)
   c17.slice  (cfg LABEL SNIFF) hex              -> hex   bytes search_slice searches
   c17.spec   (cfg LABEL SNIFF) hex              -> hex   the contract: UTF-8 equivalent
   c17.guard  (cfg LABEL SNIFF) hex              -> ok | f13 | label | second    (complement classes of c17Guard)
+  c17.flush  (cfg LABEL SNIFF) hex              -> hex   the decoder's end-of-input output (empty unless the input ends in a truncated character)
   c17.dec16  BE (chunks hex…)                   -> hex   the streaming UTF-16 machine
   c17.spec16 BE hex                             -> hex   whole-string UTF-16 specification (own mark removed)
 All decoders are streaming machines of Model/Decode.lean (UTF-16, UTF-8, single-byte table).
@@ -47,6 +48,16 @@ def guardClass (c : Cfg) (bs : Bytes) : String :=
       | some _ => "label"
     | _ => "second"
 
+/-- what the decoder in use emits at end of input (its `finish`): non-empty iff the input ends in a truncated
+character -/
+def flushOf (c : Cfg) (bs : Bytes) : Bytes :=
+  let p := plan c (bs.take 3)
+  match p.decoder with
+  | none => []
+  | some e =>
+    let m := M e
+    m.finish (m.runChunks m.init [bs.drop p.strip]).1
+
 def handle (cmd : String) (args : List Sx) : String :=
   match cmd, args with
   | "c17.reader", [cfg, chunks] =>
@@ -64,6 +75,10 @@ def handle (cmd : String) (args : List Sx) : String :=
   | "c17.guard", [cfg, bs] =>
     match parseCfg cfg, bs.bytes? with
     | some c, some bs => guardClass c bs
+    | _, _ => "bad-op"
+  | "c17.flush", [cfg, bs] =>
+    match parseCfg cfg, bs.bytes? with
+    | some c, some bs => toHex (flushOf c bs)
     | _, _ => "bad-op"
   | "c17.dec16", [be, chunks] =>
     match be.bool?, parseChunks chunks with
